@@ -390,6 +390,16 @@ func (c14) Gen(r *rand.Rand, tier string) []interface{} {
 			out = append(out, x, y, z)
 		}
 	}
+	// a server that writes its features indented: white space around the name is not part of it
+	for kind, m := range []string{"PLAIN", "X-OAUTH2"} {
+		for _, rep := range []c14Reply{c14Replies[0], c14Replies[len(c14Replies)-4]} {
+			a := mk(kind, "alice", "s3cret", []string{"\n      SCRAM-SHA-1\n    ", "\n      " + m + "\n    "}, 0, rep)
+			b := mk(kind, "alice", "s3cret", []string{" " + m + " "}, 0, rep)
+			c := mk(kind, "alice", "s3cret", []string{"\t" + m + "\r\n"}, 0, rep)
+			d := mk(kind, "alice", "s3cret", []string{"\u00a0" + m, m + "\u2003", "P LAIN", "X- OAUTH2"}, 0, rep) // not XML white space / inside the name: other names
+			out = append(out, a, b, c, d)
+		}
+	}
 	// two SASL lists in one features element: the mechanisms of both are advertised
 	for kind, m := range []string{"PLAIN", "X-OAUTH2"} {
 		a := mk(kind, "alice", "s3cret", []string{"SCRAM-SHA-1"}, 0, c14Replies[0])
@@ -719,7 +729,11 @@ func (c14) Oracle(inp interface{}, obs Sx) (string, string) {
 		credMech = "X-OAUTH2"
 	}
 	// advertised: the mechanisms of every SASL <mechanisms/> element of the features (the scenario's own lists)
-	advertisedMechs := append(append([]string{}, in.Mechs...), in.Second...)
+	// ... each by its name: the character data without the XML white space around it (xs:NMTOKEN)
+	var advertisedMechs []string
+	for _, m := range append(append([]string{}, in.Mechs...), in.Second...) {
+		advertisedMechs = append(advertisedMechs, strings.Trim(m, " \t\r\n"))
+	}
 	common := false
 	for _, m := range advertisedMechs {
 		if m == credMech {
